@@ -357,7 +357,7 @@ pub fn run(env: &Env) -> i32 {
     st.violations.extend(vs);
     let fire = firing_in(&corpus("M"));
     if env.solstat_bin().exists() {
-        tape_stream(env, &mut st, "binary", env.tier.n(160, 3000), 400, |tape, s| binary_case(env, tape, s));
+        tape_stream(env, &mut st, "binary", env.tier.n(600, 15_000), 400, |tape, s| binary_case(env, tape, s));
     } else {
         st.harness_errors.push("solstat binary not built".into());
     }
